@@ -1118,6 +1118,49 @@ func checkLocalfsDeleteOnlyKey(c *Ctx, rule string) {
 	if n == 0 {
 		c.fail(rule, f.ID, p.Pos(f.Decl.Pos()), "localfs.Delete no longer removes the key's file")
 	}
+	// nor through a helper: a repository function called from Delete must not (transitively) remove or rename anything
+	seen := map[string]bool{f.ID: true}
+	var removes func(g *FuncInfo, depth int) string
+	removes = func(g *FuncInfo, depth int) string {
+		if g == nil || g.Decl.Body == nil || seen[g.ID] || depth > 3 {
+			return ""
+		}
+		seen[g.ID] = true
+		ginfo := g.Info()
+		found := ""
+		ast.Inspect(g.Decl.Body, func(nd ast.Node) bool {
+			call, ok := nd.(*ast.CallExpr)
+			if !ok || found != "" {
+				return true
+			}
+			id := calleeID(ginfo, call)
+			if hasSuffixAny(id, "afero.Fs.Remove", "afero.Fs.RemoveAll", "afero.Fs.Rename") {
+				found = shortCallee(id) + " in " + g.ID
+				return true
+			}
+			if fn, ok := calleeObj(ginfo, call).(*types.Func); ok {
+				if r := removes(p.funcs[funcID(fn)], depth+1); r != "" {
+					found = r
+				}
+			}
+			return true
+		})
+		return found
+	}
+	ast.Inspect(f.Decl.Body, func(nd ast.Node) bool {
+		call, ok := nd.(*ast.CallExpr)
+		if !ok {
+			return true
+		}
+		if fn, ok := calleeObj(info, call).(*types.Func); ok {
+			if g := p.funcs[funcID(fn)]; g != nil {
+				if r := removes(g, 0); r != "" {
+					c.fail(rule, callKey(f, call), p.Pos(call.Pos()), "localfs.Delete also removes something else than its key ("+r+"): e.g. pruning a directory left empty races with a concurrent Put of another key under it (between that Put's MkdirAll / emptiness check and its write) — an absent key cannot be created, or another key's record is wiped")
+				}
+			}
+		}
+		return true
+	})
 }
 
 // checkWALDecoderAcceptsWhatAddStores (C19): UnmarshalWAL fails only on nil input or on a YAML error: Add applies no
@@ -4506,4 +4549,202 @@ func checkKeysPrefixAlgorithm(c *Ctx, rule string) {
 	wantLookup := "if token==\"\" {start=0} else {found:=false; for i,v range search {if token!=v {continue}; found=true; start=i; break}; if !found {delete(l.glob,prefix); return []string{},\"\",nil}}"
 	c.check(lookup == wantLookup, rule, f.ID+":token", p.Pos(f.Decl.Pos()), lookup,
 		"the page start is found as ["+lookup+"], expected ["+wantLookup+"]: a listing resumed with the continuation token must start exactly at that key, whatever the page size")
+}
+
+// checkProtocolChannelsUnbuffered (C04, C06, C11, C15 — pooled): the upload / download fan-outs hand results, errors and
+// the done signal over the channels collected in the *Chans structs (uploadBundleChans, downloadBundleChans,
+// downloadBundleFileListChans). Their protocol — a worker's slot is released only after its send was received, so the
+// done signal cannot overtake a result — needs every channel wired into such a struct to be unbuffered, wherever it is
+// created (uploadBundle, the split upload, the downloads).
+func checkProtocolChannelsUnbuffered(c *Ctx, rule string) int {
+	p := c.P
+	n := 0
+	for _, f := range p.FuncsIn("pkg/core") {
+		if f.Decl.Body == nil {
+			continue
+		}
+		info := f.Info()
+		ast.Inspect(f.Decl.Body, func(nd ast.Node) bool {
+			cl, ok := nd.(*ast.CompositeLit)
+			if !ok {
+				return true
+			}
+			tid := namedTypeID(info.TypeOf(cl))
+			if !(strings.HasPrefix(tid, "pkg/core.") && strings.HasSuffix(tid, "Chans")) {
+				return true
+			}
+			for _, el := range cl.Elts {
+				kv, ok := el.(*ast.KeyValueExpr)
+				if !ok {
+					continue
+				}
+				id, ok := ast.Unparen(kv.Value).(*ast.Ident)
+				if !ok {
+					continue
+				}
+				v, ok := info.Uses[id].(*types.Var)
+				if !ok {
+					continue
+				}
+				if _, isChan := v.Type().Underlying().(*types.Chan); !isChan {
+					continue
+				}
+				for _, d := range defsOfVarWithIndex(f, v) {
+					call, ok := d.rhs.(*ast.CallExpr)
+					if d.rhs == nil || !ok || calleeID(info, call) != "builtin.make" {
+						continue
+					}
+					n++
+					unb := len(call.Args) == 1
+					if len(call.Args) == 2 {
+						if tv, ok := info.Types[call.Args[1]]; ok && tv.Value != nil && tv.Value.ExactString() == "0" {
+							unb = true
+						}
+					}
+					c.check(unb, rule, f.ID+":chan "+types.TypeString(v.Type(), func(pk *types.Package) string { return pk.Name() })+"#"+itoa(n), p.Pos(call.Pos()),
+						"a channel of the fan-out protocol is unbuffered",
+						"a channel wired into "+shortCallee(tid)+" in "+f.ID+" is created buffered: a worker's result can sit in the buffer while its slot is released and the done signal is taken first — the split (or bundle) is recorded with an incomplete file list")
+				}
+			}
+			return true
+		})
+	}
+	return n
+}
+
+// checkVerifySettingOnlyFromOptions (C03): whether leaf hashes are verified is decided by the caller's options alone:
+// the `withVerifyHash` setting of the reader, the writer and the Fs is assigned only inside option functors (function
+// literals of an …Option type) and default constructors; nothing on the data path switches it off on its own judgement
+// (e.g. because the backend keeps a CRC, which protects transfers, not the identity of the blob).
+func checkVerifySettingOnlyFromOptions(c *Ctx, rule string) {
+	p := c.P
+	n := 0
+	for _, f := range p.FuncsIn("pkg/cafs") {
+		if f.Decl.Body == nil {
+			continue
+		}
+		info := f.Info()
+		ast.Inspect(f.Decl.Body, func(nd ast.Node) bool {
+			as, ok := nd.(*ast.AssignStmt)
+			if !ok {
+				return true
+			}
+			for _, l := range as.Lhs {
+				sel, ok := ast.Unparen(l).(*ast.SelectorExpr)
+				if !ok {
+					continue
+				}
+				s := info.Selections[sel]
+				if s == nil || s.Kind() != types.FieldVal || !strings.Contains(strings.ToLower(sel.Sel.Name), "verifyhash") {
+					continue
+				}
+				n++
+				// inside a literal whose type is a named …Option functor?
+				inOption := false
+				if lit := innermostLitAt(f, as.Pos()); lit != nil {
+					if tv := info.TypeOf(lit); tv != nil {
+						// the literal is returned as / converted to an Option type by its enclosing function
+						if sig, ok := f.Obj.Type().(*types.Signature); ok && sig.Results().Len() == 1 && strings.HasSuffix(namedTypeID(sig.Results().At(0).Type()), "Option") {
+							inOption = true
+						}
+					}
+				}
+				c.check(inOption, rule, f.ID+":"+sel.Sel.Name, p.Pos(as.Pos()),
+					"the verification setting is assigned inside an option functor",
+					f.ID+" assigns `"+exprString(l)+"` outside an option functor: hash verification is switched by the data path itself, so a blob whose content was altered consistently with the store's own checksum (swapped, rewritten) is returned as valid although the caller asked for verification")
+			}
+			return true
+		})
+	}
+	if n < 2 {
+		c.fail(rule, "pkg/cafs:verify-settings", "-", "expected at least 2 option functors assigning the verification setting, found "+itoa(n))
+	}
+}
+
+// checkEmptyExistingBlobRewritten (C04, C13): a blob object that exists but is empty is the trace of an interrupted
+// upload: existsAndValidBlob must ask for its overwrite whatever the store says about checksums (localfs reports no
+// CRC). The guarded action `overwrite = true` under (found, Size == 0) has no CRC condition in its guard.
+func checkEmptyExistingBlobRewritten(c *Ctx, rule string) {
+	p := c.P
+	f := p.Func("pkg/cafs.existsAndValidBlob")
+	ok := false
+	for _, ga := range guardedActions(f, f.Decl.Body) {
+		if !strings.HasSuffix(ga.Action, "= const:true") {
+			continue
+		}
+		sizeZero, crc := false, false
+		for _, lit := range ga.Guard {
+			if strings.Contains(lit, ".Size") && (strings.Contains(lit, "const:0==") || strings.Contains(lit, "==const:0") || strings.HasPrefix(lit, "empty(")) {
+				sizeZero = true
+			}
+			if strings.Contains(lit, "CRC32C") {
+				crc = true
+			}
+		}
+		if sizeZero && !crc {
+			ok = true
+		}
+	}
+	c.check(ok, rule, f.ID, p.Pos(f.Decl.Pos()),
+		"an existing empty blob is overwritten whatever the store's checksum support",
+		"existsAndValidBlob no longer requests the overwrite of an existing blob of size 0 independently of the CRC (localfs reports none): the empty object left by an interrupted upload is taken for a valid duplicate, the re-upload succeeds and the bundle cannot be downloaded")
+}
+
+// checkWriteToCountsWhatItCopied (C03, C04, C17): in the WriterAt branch of chunkReader.WriteTo every worker reports on
+// the count channel the number of bytes io.Copy wrote through the positioned writer; a count reported without the copy
+// (e.g. a leaf "skipped" because it is all zeros) leaves a hole — or a short file when the leaf is the last one — in
+// the destination while the download succeeds.
+func checkWriteToCountsWhatItCopied(c *Ctx, rule string) {
+	p := c.P
+	f := p.Func("pkg/cafs.chunkReader.WriteTo")
+	info := f.Info()
+	n := 0
+	for _, b := range p.BodiesOf(f) {
+		if b.Lit == nil {
+			continue
+		}
+		ast.Inspect(b.Block, func(nd ast.Node) bool {
+			if l, ok := nd.(*ast.FuncLit); ok && l != b.Lit {
+				return false
+			}
+			snd, ok := nd.(*ast.SendStmt)
+			if !ok {
+				return true
+			}
+			ch, ok := info.TypeOf(snd.Chan).Underlying().(*types.Chan)
+			if !ok {
+				return true
+			}
+			if bt, ok := ch.Elem().Underlying().(*types.Basic); !ok || bt.Kind() != types.Int64 {
+				return true
+			}
+			n++
+			d := describeExprAt(f, snd.Value)
+			c.check(strings.HasPrefix(d, "call:io.Copy(") && strings.HasSuffix(d, "#0"), rule, b.Key()+":count#"+itoa(n), p.Pos(snd.Pos()),
+				"the count reported is the result of the copy into the positioned writer",
+				"a WriteTo worker reports `"+exprString(snd.Value)+"` as written without it being the result of io.Copy into the destination: the bytes of that leaf never reach the file (a hole, or a file shorter than its size when it is the last leaf) and the download reports success")
+			return true
+		})
+	}
+	if n == 0 {
+		c.softUndecided("%s: no count is reported by the WriteTo workers any more", rule)
+	}
+}
+
+// checkGetBuildsItsReader (C01, C03, C17): Get and GetAt hand out a reader built by that very call for the hash they were
+// given: every successful return follows a call to defaultFs.reader(hash). A reader remembered from an earlier call can
+// belong to another object (e.g. when the memo key is updated before a failed build).
+func checkGetBuildsItsReader(c *Ctx, rule string) {
+	p := c.P
+	for _, fid := range []string{"pkg/cafs.defaultFs.Get", "pkg/cafs.defaultFs.GetAt"} {
+		f := p.Func(fid)
+		b := p.BodyOf(f)
+		isReader := func(bb *Body, call *ast.CallExpr) bool {
+			return calleeID(bb.Info(), call) == "pkg/cafs.defaultFs.reader" && len(call.Args) == 1 && describeExpr(f, call.Args[0], 0) == "param#1"
+		}
+		bad, nS := b.mustPassBeforeSuccess(isReader)
+		c.check(len(bad) == 0 && nS > 0, rule, fid, p.Pos(f.Decl.Pos()),
+			"every successful return follows reader(hash)",
+			fid+" can return a reader it did not build for this hash in this call (a remembered one): after a failed build for another object the previous object's bytes are served under the new name")
+	}
 }
